@@ -112,7 +112,7 @@ class C17(Prop):
                 nports = r.randrange(1, 5)
                 al = alphabet(nports)
                 h = []
-                target = r.randrange(5, 13)
+                target = r.randrange(5, 13) if r.random() > 0.02 else 80
                 while len(h) < target:
                     a = r.choice(al)
                     if legal(h + [a], nports):
